@@ -187,6 +187,41 @@ func TestVerifC17Asm(t *testing.T) {
 			}
 		}()
 	}
+	// fields whose type admits only one kind of node (a numbered DIExpression, a DIGlobalVariable): a reference stays
+	// a reference to the numbered definition -- it is not expanded in place -- in the text and after parsing it again
+	for _, src := range []string{
+		"!10 = !DIGlobalVariableExpression(var: !3, expr: !5)\n!3 = distinct !DIGlobalVariable(name: \"g\")\n!5 = !DIExpression(DW_OP_deref)\n",
+		"!10 = !DIGlobalVariableExpression(var: !3, expr: !DIExpression())\n!3 = distinct !DIGlobalVariable(name: \"g\")\n!5 = !DIExpression(DW_OP_deref)\n",
+	} {
+		cases++
+		func() {
+			defer func() {
+				if e := recover(); e != nil {
+					fail("typed reference fields: panic %v on\n%s", e, src)
+				}
+			}()
+			m, err := ParseString("n.ll", src)
+			if err != nil {
+				fail("typed reference fields: %v on\n%s", err, src)
+				return
+			}
+			line := strings.SplitN(src, "\n", 2)[0]
+			printed := ""
+			for _, l := range strings.Split(m.String(), "\n") {
+				if strings.HasPrefix(l, "!10 = ") {
+					printed = l
+				}
+			}
+			for _, mm := range refRe.FindAllStringSubmatch(line, -1) {
+				if !strings.Contains(printed, mm[1]+": "+mm[2]) {
+					fail("typed reference fields: the reference `%s: %s` of the text is not printed back: %s", mm[1], mm[2], printed)
+				}
+			}
+			if strings.Contains(line, "expr: !DIExpression()") && !strings.Contains(printed, "expr: !DIExpression()") {
+				fail("typed reference fields: the in-place expression of the text is not printed in place: %s", printed)
+			}
+		}()
+	}
 	fmt.Printf("REPLAY-SAMPLE %d combinations of three definitions of !x\n", cases)
 	fmt.Printf("REPLAY-CASES %d\n", cases)
 	if fails > 0 {
